@@ -8,6 +8,7 @@ from harness.common import cN, cZ, cnat, cbool, clist, cpair, copt, coq_failing
 from harness import synth
 
 IMPORTS = "Model.Retry Check.C10"
+EXTRA_TARGETS = ["Check/Trav.vo"]
 WORDS = ["fail", "error", "pass", "warn", "skip", "cancel", "interrupted", "unknown"]
 ST = {"fail": "SFail", "error": "SError", "pass": "SPass", "warn": "SWarn", "skip": "SSkip",
       "cancel": "SCancel", "interrupted": "SInterrupted", "unknown": "SUnknown"}
@@ -139,7 +140,49 @@ def impl_verdict(tests):
     return bool(r.all_results_ok())
 
 
+def traversal_tie(ctx, replay):
+    """the schedule-level theorems (identifiers strictly increase, one entry per execution) are about Model/TraverseRun.v:
+    a batch of retry-heavy traversals of the real code is compared with that model section by section (uids included)"""
+    from harness import travgen
+    if replay and "spec" not in replay.get("data", {}):
+        return
+    fixed = None
+    if replay:
+        d = replay["data"]
+        fixed = (d["spec"], d["initial_pools"], d["schedule"])
+    n = 0 if fixed else (300 if ctx.thorough else 36)
+    cases = travgen.run_batch(ctx, n, ["retry", "retry", "contention"], "c10trav", fixed=fixed)
+    bad = [c for c in cases if not c["agrees"]]
+    ctx.obligation("correspondence:traversal-traces(retry)", "correspondence", not bad,
+                   f"{len(bad)} of {len(cases)} retry-heavy traversals differ from Model/TraverseRun.v in some atomic section")
+    reused = []
+    for c in cases:
+        seen = set()
+        for evs in c["run"].events:
+            for e in evs:
+                if e[0] == "start" and not e[4]:
+                    key = (e[2], e[3])
+                    if key in seen:
+                        reused.append((c, key))
+                    seen.add(key)
+    ctx.obligation("monitor:identifiers-distinct-per-node", "monitor", not reused, f"{len(reused)} executions reuse an identifier of their node")
+    for c in bad[:1]:
+        d = travgen.replay_data(c)
+        d["model_vs_impl"] = travgen.describe_diff(ctx, c)
+        d["obligation"] = "correspondence:traversal-traces(retry)"
+        ctx.fail("C10:traversal-correspondence", "the traversal (graph.py / node.py / runner.py) and the model disagree on a trace", d, False)
+    for c, key in reused[:1]:
+        d = travgen.replay_data(c)
+        d["violation"] = f"identifier {key[1]} of node {key[0]} used by two executions"
+        ctx.fail("C10:identifier-reused", f"two executions of one test carry the same identifier ({key})", d, True)
+    ctx.count(len(cases), sum(1 for c in cases if any(e[0] == "start" and e[3] > 0 for evs in c["run"].events for e in evs)))
+    ctx.coverage["retry_traversals"] = len(cases)
+
+
 def run(ctx, replay=None):
+    traversal_tie(ctx, replay)
+    if replay and "spec" in replay.get("data", {}):
+        return
     rng = ctx.rng
     # ---------------- should_rerun
     cfgs = []
